@@ -1,6 +1,6 @@
 #!/bin/bash
 # c13_explore.sh <seed>... : thorough C13 at several seeds (scratch evidence), for background exploration
-cd /verif
+cd "$(dirname "$(readlink -f "$0")")"
 out=$(mktemp -d /tmp/verif-c13x-XXXXXX)
 for s in "$@"; do
   VERIF_SEED=$s VERIF_EVIDENCE_DIR=$out/ev VERIF_REPLAY_DIR=/verif/replays ./check C13 thorough > $out/$s.log 2>&1; rc=$?
